@@ -19,6 +19,7 @@ import (
 var Active *Sched
 
 type thread struct {
+	goid     uint64
 	id       int
 	name     string
 	wake     chan struct{}
@@ -55,6 +56,11 @@ type Sched struct {
 	aborting  bool
 	aborter   *thread
 	finished  bool
+	// Foreign counts hooked operations executed by goroutines that are not scheduled threads while
+	// the scheduler was active (they ran pass-through; a data race with the s.Foreign counter itself
+	// is harmless). A non-zero value means the daemon did something concurrently that the explorer
+	// did not control.
+	Foreign int
 	// Filter, if set, decides whether a hooked operation is a scheduling point at all.
 	Filter func(op string) bool
 }
@@ -101,6 +107,7 @@ func (s *Sched) Run() {
 				s.threadExit(t)
 			}()
 			t.started = true
+			t.goid = curGoid()
 			t.body()
 		}()
 	}
@@ -262,8 +269,38 @@ func (s *Sched) Block(tag string, cond func() bool) {
 	}
 }
 
-// InThread reports whether a scheduled thread is running (the shims use their logical state then).
-func (s *Sched) InThread() bool { return s != nil && s.cur >= 0 && !s.finished }
+// InThread reports whether the CALLING goroutine is the scheduled thread that currently owns control
+// (the shims use their logical state then). Any other goroutine (the daemon's own background
+// goroutines woken by a context cancellation, timers) gets pass-through behaviour.
+func (s *Sched) InThread() bool {
+	if s == nil || s.finished {
+		return false
+	}
+	c := s.cur
+	if c < 0 || c >= len(s.threads) {
+		return false
+	}
+	if s.threads[c].goid != curGoid() {
+		s.Foreign++
+		return false
+	}
+	return true
+}
+
+// curGoid parses the goroutine id out of the stack header ("goroutine 123 [running]:").
+func curGoid() uint64 {
+	var buf [40]byte
+	n := runtime.Stack(buf[:], false)
+	var id uint64
+	for i := len("goroutine "); i < n; i++ {
+		c := buf[i]
+		if c < '0' || c > '9' {
+			break
+		}
+		id = id*10 + uint64(c-'0')
+	}
+	return id
+}
 
 // Panics returns the panics of the threads, if any.
 func (s *Sched) Panics() []string {
